@@ -1,3 +1,77 @@
-From ZV Require Import Lib.Base Model.Cleanup.
-Theorem C32_placeholder : True. Proof. exact I. Qed.
-Print Assumptions C32_placeholder.
+(** C32 — cleanup never loses an assigned repository.
+    Model: Model/Cleanup.v ([cleanup d repos now shardMerging] = cmd/zoekt-sourcegraph-indexserver/cleanup.go
+    after the repair `fix: indexserver cleanup: tombstone unassigned repos in compound shards even when
+    they also have simple shards`).  Proofs: Proofs/CleanupProofs.v. *)
+From ZV Require Import Lib.Base Model.Cleanup Proofs.CleanupProofs.
+Open Scope Z_scope.
+
+(** assigned_kept.  For every well-formed index directory, every assigned set, every time and both
+    settings of shardMerging: a shard file f that serves an assigned repository r whose shards agree
+    on its name is still in the index after cleanup, under the same name and kind, with r's metadata
+    (alive, name, dates) untouched — provided shardMerging is on or f is not a compound shard.
+    (FULL statement without that proviso is refuted below: C32_assigned_kept_no_merging_refuted.) *)
+Theorem C32_assigned_kept_partial : forall d repos now sm f e r,
+  wf d -> In f (d_index d) -> In e (alive_entries f) -> e_id e = r ->
+  In r repos -> consistent (group (get_shards (d_index d)) r) = true ->
+  sm = true \/ f_compound f = false ->
+  exists f', In f' (d_index (cleanup d repos now sm)) /\ f_base f' = f_base f /\
+             f_compound f' = f_compound f /\ proj r f' = proj r f.
+Proof. intros. eapply assigned_kept; eauto. Qed.
+Print Assumptions C32_assigned_kept_partial.
+
+(** the open finding: shardMerging = false, a compound shard holding assigned repository 1 and unassigned
+    repository 2 is deleted outright *)
+Theorem C32_assigned_kept_no_merging_refuted :
+  exists d repos now f e r,
+    wf d /\ In f (d_index d) /\ In e (alive_entries f) /\ e_id e = r /\ In r repos /\
+    consistent (group (get_shards (d_index d)) r) = true /\
+    d_index (cleanup d repos now false) = [].
+Proof. exact assigned_kept_no_merging_refuted. Qed.
+Print Assumptions C32_assigned_kept_no_merging_refuted.
+
+(** what was wrong before the repair (shardMerging = true; unassigned repository 2 alive in a simple
+    shard and in the compound shard that also serves assigned repository 1) *)
+Theorem C32_assigned_kept_before_fix_refuted :
+  exists d repos now f e r,
+    wf d /\ In f (d_index d) /\ In e (alive_entries f) /\ e_id e = r /\ In r repos /\
+    consistent (group (get_shards (d_index d)) r) = true /\
+    d_index (cleanup_before_fix d repos now true) = [].
+Proof. exact assigned_kept_before_fix_refuted. Qed.
+Print Assumptions C32_assigned_kept_before_fix_refuted.
+
+Theorem C32_tmp_files_removed : forall d repos now sm, d_tmps (cleanup d repos now sm) = 0%nat.
+Proof. exact tmp_removed. Qed.
+Print Assumptions C32_tmp_files_removed.
+
+(** ---- non-vacuity: a directory exercising every phase (trash old / fresh / conflicting, tombstones,
+    a renamed repository, compound shards shared by assigned and unassigned repositories, tmp files) *)
+Definition ex_big : dir :=
+  mkD [ mkF 0 false (-3600) [mkE 1 1 false 1000];                                  (* repo 1, assigned *)
+        mkF 1 false (-3600) [mkE 2 2 false 1000];                                  (* repo 2, unassigned *)
+        mkF 2 false (-3600) [mkE 3 3 false 1000];                                  (* repo 3 under two names *)
+        mkF 3 false (-3600) [mkE 3 33 false 1000];
+        mkF 4 true (-3600) [mkE 1 1 true 1000; mkE 4 4 false 2000; mkE 5 5 false 1000; mkE 6 6 true 3000] ]
+      [ mkF 5 false (-86401) [mkE 7 7 false 1000];                                 (* old *)
+        mkF 6 false (-86400) [mkE 8 8 false 1000];                                 (* exactly 24h: kept, restored *)
+        mkF 0 false (-60) [mkE 1 1 false 1000] ]                                   (* conflicts with the index *)
+      2.
+Definition ex_repos : list N := [1; 4; 6; 8]%N.
+
+Example ex_big_wf : wf ex_big.
+Proof.
+  constructor.
+  - simpl. repeat constructor; simpl; intuition discriminate.
+  - simpl. intros f e e' Hf C. repeat (destruct Hf as [<-|Hf]; [try discriminate; simpl; intuition congruence|]). contradiction.
+  - simpl. intros t f e Ht Hf Hb He.
+    repeat (destruct Ht as [<-|Ht]; [repeat (destruct Hf as [<-|Hf]; [try discriminate|]); try contradiction|]); try contradiction.
+    simpl in He. destruct He as [<-|[]]. vm_compute. left. reflexivity.
+Qed.
+
+(* the result: 1 kept (simple), 2 trashed, 3 purged, compound shard kept with 4 alive, 5 tombstoned, 6 revived;
+   trash: 7 expired, 8 restored, conflicting copy of 1 deleted; tmp files gone *)
+Example ex_big_result :
+  let x := cleanup ex_big ex_repos 0 true in
+  map f_base (d_index x) = [0; 4; 6]%N /\ map f_base (d_trash x) = [1%N] /\ d_tmps x = 0%nat /\
+  option_map (fun f => map (fun e => (e_id e, e_tomb e)) (f_repos f)) (find_file 4 (d_index x))
+    = Some [(1, true); (4, false); (5, true); (6, false)]%N.
+Proof. vm_compute. repeat split; reflexivity. Qed.
